@@ -96,6 +96,11 @@ REGISTRY = {
                          'np.arange(n) = [0..n-1]; float arithmetic read over the reals: element j = s + j*((s+i)-s) = s + j*i']),
     'C17': dict(module='contracts.C17', native=native_sweep('c17_addr.py', 'block order, numbering, both addressing forms for sources and loads, listings, all-of-object / all attachment on the real code through main()', 60, 1500), level='proof', undecided=[],
                 trusted=['list.sort(key) / sorted(): result is a permutation ordered by the key (axiom)']),
+    'C04': dict(module='contracts.C04', level='other',
+                native=native_sweep('c04_nearfield.py', 'near field at 150..300 wavelengths vs the reported far field (same power and distance, 1.5 %), E/H = 376.7 ohm, transversality; bent and branched antennas, different radii, reversed wires, ideal ground with wires grounded at either end', 40, 1500),
+                undecided=['psi_near_field_56 and the finite differences of the scalar potential, the curl (H), the power scaling, convergence to the far field: bounded native sweep only'],
+                trusted=['psi replaced by its contract: an uninterpreted function of its arguments (vec2, vecv, k, scale, pulse)',
+                         'numpy fancy indexing with an index array acts elementwise like the scalar index used in the unit']),
     'C07': dict(module='contracts.C07', level='proof',
                 native=native_sweep('c07_lin.py', 'homogeneity, superposition, order independence and printed source data on the real solver (1..4 sources incl. grounded and junction pulses)', 40, 1500),
                 undecided=['invariance of the dBi pattern under voltage scaling (vectorised far field)'],
